@@ -20,5 +20,5 @@ Definition unrecognised (t : string) : bool :=
 (* what is required of a catalogue entry: safe and closed on its own, nothing in it is recognised *)
 Definition entry_ok (e : list string) : bool := safe e && closed e && forallb unrecognised e.
 
-Definition app3v (a b : list (option string) * list (option string) * list (option string)) :=
-  match a, b with (d1, p1, f1), (d2, p2, f2) => (List.app d1 d2, List.app p1 p2, List.app f1 f2) end.
+Definition app4v (a b : list (option string) * list (option string) * list (option string) * list (option string)) :=
+  match a, b with (d1, p1, s1, f1), (d2, p2, s2, f2) => (List.app d1 d2, List.app p1 p2, List.app s1 s2, List.app f1 f2) end.
